@@ -3,6 +3,7 @@
 package sm2
 
 import (
+	"bytes"
 	"fmt"
 	"math/big"
 	"testing"
@@ -741,6 +742,42 @@ func TestVerifC03(t *testing.T) {
 		}
 	}
 
+	// the five arguments are FIELDS OF ONE RECORD (a parsed message: key, digest and signature side by side in one
+	// buffer, in every rotation of the field order), each slice with its natural capacity reaching to the end of the
+	// record: an argument's spare capacity holds the next argument. The verdict must be the model's and the record
+	// must come back unchanged.
+	{
+		nrec := 0
+		for ci, c := range cases {
+			if nrec >= hk.N(400, 4000) {
+				break
+			}
+			if ci%3 != int(hk.Seed()%3) || len(c.px) != 32 || len(c.py) != 32 || len(c.e) != 32 || len(c.r) != 32 || len(c.s) != 32 {
+				continue
+			}
+			fields := [][]byte{c.px, c.e, c.py, c.r, c.s}
+			rot := nrec % 5
+			rec := make([]byte, 0, 5*32+16)
+			var off [5]int
+			for i := 0; i < 5; i++ {
+				k := (i + rot) % 5
+				off[k] = len(rec)
+				rec = append(rec, fields[k]...)
+			}
+			rec = append(rec, zvRandTail(nrec)...)
+			snap := append([]byte{}, rec...)
+			view := func(k int) []byte { return rec[off[k] : off[k]+32] } // capacity up to the end of the record
+			want := ref.SM2Verify(c.px, c.py, c.e, c.r, c.s)
+			var ok bool
+			p, msg, _, _ := hk.Try(func() { ok, _ = VerifyHashed(view(0), view(2), view(1), view(3), view(4)) })
+			if p || ok != want || !bytes.Equal(rec, snap) {
+				rep.Violation("verify-wrong-or-record-changed:arguments-are-fields-of-one-record", hk.D{"field_order_rotation": rot, "label": c.label, "got": ok, "model": want, "panic": msg, "record_changed": !bytes.Equal(rec, snap), "px": hk.Hex(c.px), "py": hk.Hex(c.py), "e": hk.Hex(c.e), "r": hk.Hex(c.r), "s": hk.Hex(c.s)})
+			}
+			nrec++
+		}
+		rep.EvalN("arguments-are-fields-of-one-record", nrec)
+	}
+
 	// the same verifications from fresh goroutines at EVERY STACK DEPTH of a sweep (the stack moves at another point inside
 	// the call each time): valid stays valid, invalid stays invalid
 	{
@@ -904,4 +941,13 @@ func zvFlip(b []byte, bit int) []byte {
 	o := append([]byte{}, b...)
 	o[bit/8] ^= 1 << uint(bit%8)
 	return o
+}
+
+// zvRandTail: a few bytes behind the last field of a record
+func zvRandTail(i int) []byte {
+	t := make([]byte, 1+i%16)
+	for j := range t {
+		t[j] = byte(0x9e ^ i ^ j)
+	}
+	return t
 }
